@@ -59,6 +59,15 @@ pub struct Seen {
     pub padding_observed: usize,
     pub memo512: usize,
     pub fee: u128,
+    /// P2SH inputs whose scriptSig was checked / signatures inside them
+    pub p2sh_inputs: usize,
+    pub p2sh_sigs_verified: usize,
+    /// signature hashes recomputed by the harness's own ZIP 143 / 243 / 244 code and found equal
+    pub ref_sighashes: usize,
+    /// hits of the known finding about the deferred builder's required-but-omitted bundle
+    pub known_deferred_required: usize,
+    /// hits of the known finding about OP_PUSHDATA1 lengths of 128..=255 in P2SH scriptSigs
+    pub known_pushdata1_length: usize,
 }
 
 pub fn zip212_real(z: Z212) -> sapling::note_encryption::Zip212Enforcement {
@@ -81,6 +90,73 @@ pub fn expected_memo(m: &Memo) -> [u8; 512] {
         }
     }
     out
+}
+
+/// One element of a push-only script.
+#[derive(Debug, PartialEq, Eq)]
+pub struct Push<'a> {
+    /// 0x00 (OP_0), 0x01..=0x4b (direct push), 0x4c (OP_PUSHDATA1), 0x4d (OP_PUSHDATA2)
+    pub opcode: u8,
+    pub data: &'a [u8],
+}
+
+/// Parses a script made of data pushes only (OP_0, direct pushes, OP_PUSHDATA1/2); `None` for any
+/// other opcode or a truncated push.
+pub fn parse_push_only(mut s: &[u8]) -> Option<Vec<Push<'_>>> {
+    let mut out = vec![];
+    while let Some((&op, rest)) = s.split_first() {
+        let (len, rest) = match op {
+            0x00..=0x4b => (op as usize, rest),
+            0x4c => (*rest.first()? as usize, &rest[1..]),
+            0x4d => {
+                if rest.len() < 2 {
+                    return None;
+                }
+                (u16::from_le_bytes([rest[0], rest[1]]) as usize, &rest[2..])
+            }
+            _ => return None,
+        };
+        if rest.len() < len {
+            return None;
+        }
+        out.push(Push { opcode: op, data: &rest[..len] });
+        s = &rest[len..];
+    }
+    Some(out)
+}
+
+/// The known mis-encoding (`SIG_PUSHDATA1_LENGTH`): `ss` ends with `OP_PUSHDATA1 <len> 0x00 <redeem>`
+/// for a redeem script of 128..=255 bytes. Returns the scriptSig with the stray sign byte removed.
+fn repair_pushdata1_length(ss: &[u8], redeem: &[u8]) -> Option<Vec<u8>> {
+    if !(128..=255).contains(&redeem.len()) {
+        return None;
+    }
+    let mut tail = vec![0x4c, redeem.len() as u8, 0x00];
+    tail.extend_from_slice(redeem);
+    ss.ends_with(&tail).then(|| {
+        let cut = ss.len() - redeem.len() - 1;
+        let mut v = ss[..cut].to_vec();
+        v.extend_from_slice(redeem);
+        v
+    })
+}
+
+/// The coin's script is the P2SH template (`OP_HASH160 <20 bytes> OP_EQUAL`).
+pub fn is_p2sh_script(s: &[u8]) -> bool {
+    s.len() == 23 && s[0] == 0xa9 && s[1] == 0x14 && s[22] == 0x87
+}
+
+/// Size with which the fee rule prices the observed input `ss` (scriptSig) spending a coin locked
+/// by `coin_script`: the ZIP 317 standard size for P2PKH; for P2SH the documented estimate for the
+/// number of signatures and the redeem script that the scriptSig carries.
+fn observed_priced_size(coin_script: &[u8], ss: &[u8]) -> Result<usize, Fail> {
+    if !is_p2sh_script(coin_script) {
+        return Ok(P2PKH_PRICED_SIZE);
+    }
+    let Some(pushes) = parse_push_only(ss).filter(|p| p.len() >= 3) else {
+        vfail!("script-sig-malformed", "P2SH input: scriptSig {} is not OP_0 <sig>.. <redeem script>", hex::encode(ss))
+    };
+    Ok(p2sh_multisig_input_size(pushes.len() - 2, pushes[pushes.len() - 1].data.len()))
 }
 
 /// scriptSig of a P2PKH spend: <push sig||hashtype> <push 33-byte pubkey>
@@ -144,13 +220,61 @@ pub fn check_built(c: &Case, p: &Plan, w: &World, res: &BuildResult) -> Result<S
         None => (vec![], vec![]),
     };
     check_transparent_part(c, p, w, &vin, &vout)?;
+    let mut vin = vin;
+    for (n, i) in p.accepted(T_IN).enumerate() {
+        let Some(redeem) = p.redeem[i].as_ref().filter(|_| c.t_in[i].spend.is_p2sh_multisig()) else { continue };
+        let ss = vin[n].1.as_ref().expect("built input has a scriptSig");
+        if let Some(repaired) = repair_pushdata1_length(ss, redeem) {
+            if !crate::known_hit(SIG_PUSHDATA1_LENGTH) {
+                vfail!(
+                    SIG_PUSHDATA1_LENGTH,
+                    "P2SH input {n}: the {}-byte redeem script is pushed as OP_PUSHDATA1 {:02x} 00 .. (two length bytes): scriptSig {} parses as a {}-byte push of 00||redeem[..{}] followed by the stray opcode {:#04x}; it is not push-only and does not carry the redeem script",
+                    redeem.len(),
+                    redeem.len(),
+                    hex::encode(ss),
+                    redeem.len(),
+                    redeem.len() - 1,
+                    redeem[redeem.len() - 1]
+                );
+            }
+            // known: continue with the scriptSig as it was meant (also for the sizes below: the stray
+            // byte is disregarded for exactly these inputs)
+            vin[n].1 = Some(repaired);
+            seen.known_pushdata1_length += 1;
+        }
+        // structure: exactly OP_0, m signatures, the redeem script (minimal push)
+        let ss = vin[n].1.as_ref().expect("built input has a scriptSig");
+        let pr = p.p2sh[i].as_ref().expect("p2sh multisig view");
+        let Some(pushes) = parse_push_only(ss) else {
+            vfail!("script-sig-malformed", "P2SH input {n}: scriptSig {} is not push-only", hex::encode(ss))
+        };
+        vensure!(
+            pushes.len() == pr.m + 2,
+            "p2sh-script-sig-wrong-element-count",
+            "P2SH input {n} ({}-of-{}): scriptSig has {} elements, expected OP_0 + {} signatures + redeem script: {}",
+            pr.m,
+            pr.keys.len(),
+            pushes.len(),
+            pr.m,
+            hex::encode(ss)
+        );
+        vensure!(pushes[0].opcode == 0x00, "p2sh-script-sig-no-leading-op0", "P2SH input {n}: scriptSig starts with opcode {:#04x}, not OP_0 (CHECKMULTISIG pops one extra element)", pushes[0].opcode);
+        let last = &pushes[pushes.len() - 1];
+        vensure!(last.data == &redeem[..], "p2sh-script-sig-wrong-redeem-script", "P2SH input {n}: last scriptSig element {} is not the requested redeem script {}", hex::encode(last.data), hex::encode(redeem));
+        vensure!(ss.ends_with(&push_data(redeem)), "p2sh-script-sig-redeem-push-not-minimal", "P2SH input {n}: {}-byte redeem script pushed with opcode {:#04x}", last.data.len(), last.opcode);
+    }
+    let vin = vin;
 
     // ---- observed shape
     let (s_spends, s_outputs) = tx.sapling_bundle().map(|b| (b.shielded_spends().len(), b.shielded_outputs().len())).unwrap_or((0, 0));
     let o_actions = tx.orchard_bundle().map(|b| b.actions().len()).unwrap_or(0);
     let i_actions = tx.ironwood_bundle().map(|b| b.actions().len()).unwrap_or(0);
+    let mut t_in_sizes = vec![];
+    for ((_, ss), i) in vin.iter().zip(p.accepted(T_IN)) {
+        t_in_sizes.push(observed_priced_size(&w.coins[i].1.script_pubkey().0 .0, ss.as_ref().expect("built input has a scriptSig"))?);
+    }
     let observed = Shape {
-        t_in: vin.len(),
+        t_in_sizes,
         t_out_sizes: vout.iter().map(|(_, s)| txout_size(s.len())).collect(),
         s_spends,
         s_outputs,
@@ -211,33 +335,117 @@ pub fn check_built(c: &Case, p: &Plan, w: &World, res: &BuildResult) -> Result<S
         let parts = data.digest(TxIdDigester);
         let bundle = data.transparent_bundle().expect("vin non-empty");
         let secp = secp256k1::Secp256k1::verification_only();
-        for (n, i) in acc.iter().enumerate() {
-            let key = &k.t[c.t_in[*i].key as usize];
-            let ss = vin[n].1.as_ref().expect("built input has a scriptSig");
-            let Some((der, hash_type, pk_bytes)) = parse_p2pkh_script_sig(ss) else {
-                vfail!("script-sig-malformed", "input {n}: scriptSig {} is not <sig> <pubkey>", hex::encode(ss))
-            };
-            vensure_eq!(hash_type, 0x01, "script-sig-hash-type", "input {n}: hash type byte");
-            vensure!(pk_bytes == key.pk.serialize(), "script-sig-wrong-pubkey", "input {n}: scriptSig pubkey {} is not the requested key {}", hex::encode(pk_bytes), hex::encode(key.pk.serialize()));
-            // the pubkey must hash to the coin's script
-            vensure!(p2pkh_script(&hash160(pk_bytes)) == scripts[n].0 .0, "script-sig-pubkey-not-for-coin", "input {n}: hash160(pubkey) does not match the coin's script");
-            let sig = match secp256k1::ecdsa::Signature::from_der(der) {
-                Ok(s) => s,
-                Err(e) => vfail!("script-sig-malformed", "input {n}: signature is not DER: {e}"),
-            };
-            let si = zcash_transparent::sighash::SignableInput::from_parts(bundle, SighashType::ALL, n, &scripts[n], &scripts[n], amounts[n])
+        let ref_coins: Vec<(u64, Vec<u8>)> = acc.iter().map(|i| (w.coins[*i].1.value().into_u64(), w.coins[*i].1.script_pubkey().0 .0.clone())).collect();
+        // signature hash of input n for the given scriptCode: through the public API, and
+        // recomputed from the ZIP text; both must agree
+        let ref_count = std::cell::Cell::new(0usize);
+        let sighash = |n: usize, script_code: &[u8]| -> Result<secp256k1::Message, Fail> {
+            let code = crate::run::script_from_bytes(script_code);
+            let si = zcash_transparent::sighash::SignableInput::from_parts(bundle, SighashType::ALL, n, &code, &scripts[n], amounts[n])
                 .map_err(|e| Fail::new("harness-signable-input", format!("{e}")))?;
             let h = signature_hash(&data, &SignableInput::Transparent(si), &parts);
-            let msg = secp256k1::Message::from_digest(*h.as_ref());
+            let reference = match p.eff_ver {
+                Ver::V3 | Ver::V4 => crate::sighash_ref::sighash_v3_v4(tx, p.eff_ver, n, script_code, ref_coins[n].0),
+                Ver::V5 | Ver::V6 => crate::sighash_ref::sighash_v5_v6(tx, p.eff_ver, &parts, &ref_coins, n),
+                Ver::Sprout2 => vfail!("built-pre-overwinter", "a pre-Overwinter transaction with transparent inputs was built"),
+            };
             vensure!(
-                secp.verify_ecdsa(&msg, &sig, &key.pk).is_ok(),
-                "transparent-signature-invalid",
-                "input {n} of {}: signature does not verify against signature_hash(SIGHASH_ALL, {n}, {:?}, coin script)",
-                acc.len(),
-                amounts[n]
+                *h.as_ref() == reference,
+                "signature-hash-differs-from-reference",
+                "input {n} ({:?}): signature_hash gives {}, the {} reference {} (scriptCode {} bytes, value {})",
+                p.eff_ver,
+                hex::encode(h.as_ref()),
+                if matches!(p.eff_ver, Ver::V3 | Ver::V4) { "ZIP 143/243" } else { "ZIP 244" },
+                hex::encode(reference),
+                script_code.len(),
+                ref_coins[n].0
             );
-            seen.sigs_verified += 1;
+            ref_count.set(ref_count.get() + 1);
+            Ok(secp256k1::Message::from_digest(*h.as_ref()))
+        };
+        for (n, i) in acc.iter().enumerate() {
+            let ss = vin[n].1.as_ref().expect("built input has a scriptSig");
+            let coin_script = &scripts[n].0 .0;
+            match &c.t_in[*i].spend {
+                TSpend::P2pkh => {
+                    let key = &k.t[c.t_in[*i].key as usize];
+                    let Some((der, hash_type, pk_bytes)) = parse_p2pkh_script_sig(ss) else {
+                        vfail!("script-sig-malformed", "input {n}: scriptSig {} is not <sig> <pubkey>", hex::encode(ss))
+                    };
+                    vensure_eq!(hash_type, 0x01, "script-sig-hash-type", "input {n}: hash type byte");
+                    vensure!(pk_bytes == key.pk.serialize(), "script-sig-wrong-pubkey", "input {n}: scriptSig pubkey {} is not the requested key {}", hex::encode(pk_bytes), hex::encode(key.pk.serialize()));
+                    // the pubkey must hash to the coin's script
+                    vensure!(p2pkh_script(&hash160(pk_bytes)) == *coin_script, "script-sig-pubkey-not-for-coin", "input {n}: hash160(pubkey) does not match the coin's script");
+                    let sig = match secp256k1::ecdsa::Signature::from_der(der) {
+                        Ok(s) => s,
+                        Err(e) => vfail!("script-sig-malformed", "input {n}: signature is not DER: {e}"),
+                    };
+                    // P2PKH: the scriptCode is the coin's script
+                    let msg = sighash(n, coin_script)?;
+                    vensure!(
+                        secp.verify_ecdsa(&msg, &sig, &key.pk).is_ok(),
+                        "transparent-signature-invalid",
+                        "input {n} of {}: signature does not verify against signature_hash(SIGHASH_ALL, {n}, {:?}, coin script)",
+                        acc.len(),
+                        amounts[n]
+                    );
+                    seen.sigs_verified += 1;
+                }
+                TSpend::P2sh { .. } => {
+                    let pr = p.p2sh[*i].as_ref().expect("p2sh multisig view");
+                    let Some(pushes) = parse_push_only(ss) else {
+                        vfail!("script-sig-malformed", "P2SH input {n}: scriptSig {} is not push-only", hex::encode(ss))
+                    };
+                    // (structure checked above: exactly OP_0, m signatures, the requested redeem script)
+                    let last = &pushes[pushes.len() - 1];
+                    // the redeem script must be the one the coin commits to
+                    vensure!(p2sh_script(&hash160(last.data)) == *coin_script, "p2sh-redeem-script-not-for-coin", "P2SH input {n}: hash160(redeem script) does not match the coin's script hash");
+                    let Some((m, pubkeys)) = parse_multisig_redeem_script(last.data) else {
+                        vfail!("harness-redeem-script", "the harness's own redeem script does not parse as multisig")
+                    };
+                    debug_assert_eq!(m as usize, pr.m);
+                    // P2SH: the scriptCode is the redeem script; scriptPubKey / value are the coin's
+                    let msg = sighash(n, last.data)?;
+                    // OP_CHECKMULTISIG: signatures must come in the order of their public keys
+                    let mut next_key = 0usize;
+                    for (j, sp) in pushes[1..=pr.m].iter().enumerate() {
+                        vensure!(sp.opcode as usize == sp.data.len() && (9..=73).contains(&sp.data.len()), "script-sig-malformed", "P2SH input {n}: signature {j} pushed as opcode {:#04x} with {} bytes", sp.opcode, sp.data.len());
+                        let (der, hash_type) = sp.data.split_at(sp.data.len() - 1);
+                        vensure_eq!(hash_type[0], 0x01, "script-sig-hash-type", "P2SH input {n} signature {j}: hash type byte");
+                        let sig = match secp256k1::ecdsa::Signature::from_der(der) {
+                            Ok(s) => s,
+                            Err(e) => vfail!("script-sig-malformed", "P2SH input {n}: signature {j} is not DER: {e}"),
+                        };
+                        let verifies = |pos: usize| secp256k1::PublicKey::from_slice(&pubkeys[pos]).is_ok_and(|pk| secp.verify_ecdsa(&msg, &sig, &pk).is_ok());
+                        let anywhere: Vec<usize> = (0..pubkeys.len()).filter(|pos| verifies(*pos)).collect();
+                        vensure!(
+                            !anywhere.is_empty(),
+                            "transparent-signature-invalid",
+                            "P2SH input {n} of {} ({}-of-{}): signature {j} verifies under none of the redeem script's keys against signature_hash(SIGHASH_ALL, {n}, script_code = redeem script, {:?}, coin script)",
+                            acc.len(),
+                            pr.m,
+                            pr.keys.len(),
+                            amounts[n]
+                        );
+                        let Some(pos) = (next_key..pubkeys.len()).find(|pos| verifies(*pos)) else {
+                            vfail!(
+                                "p2sh-signatures-not-in-pubkey-order",
+                                "P2SH input {n} ({}-of-{}): signature {j} verifies under key position(s) {anywhere:?} but the previous signature already consumed the keys below position {next_key}; OP_CHECKMULTISIG fails",
+                                pr.m,
+                                pr.keys.len()
+                            )
+                        };
+                        vensure!(pr.available.contains(&pos), "p2sh-signed-by-key-outside-signing-set", "P2SH input {n}: signature {j} is by key position {pos}, which is not in the signing set (available {:?})", pr.available);
+                        next_key = pos + 1;
+                        seen.sigs_verified += 1;
+                        seen.p2sh_sigs_verified += 1;
+                    }
+                    seen.p2sh_inputs += 1;
+                }
+                TSpend::P2shOther => vfail!("built-with-unsupported-redeem-script", "input {n}: a P2SH input whose redeem script is not multisig was signed: {}", hex::encode(ss)),
+            }
         }
+        seen.ref_sighashes = ref_count.get();
     }
 
     // ---- Sapling content
